@@ -25,16 +25,22 @@ def tok(s):
 def avt_text(kind, value, rng):
     if kind == "simple":
         return value
-    # an AVT with {} parts that evaluates to value.  Bare literal parts ({'x'}, {1}) are avoided: they
-    # overwrite the buffer instead of appending (XPath::literal string overload — reported separately)
+    # an AVT with {} parts that evaluates to value (bare literal parts included: they used to
+    # overwrite the buffer — fixed in /repo by b279609, XPath::literal/numberlit string overloads)
     k = rng.randrange(0, len(value) + 1)
-    form = rng.randrange(4)
+    form = rng.randrange(7)
     if form == 0:
         return "{concat('%s','%s')}" % (value[:k], value[k:])
     if form == 1:
         return "%s{substring('%s',%d)}" % (value[:k], value, k + 1)
     if form == 2:
         return "{substring('%s',1,%d)}%s" % (value, k, value[k:])
+    if form == 3:
+        return "{'%s'}" % value
+    if form == 4:
+        return "%s{'%s'}" % (value[:k], value[k:])
+    if form == 5:
+        return "{'%s'}{'%s'}" % (value[:k], value[k:])
     return "{substring('%s',1,%d)}{substring('%s',%d)}" % (value, k, value, k + 1)
 
 
